@@ -120,6 +120,80 @@ def checkFnTypes (m : Module) (f : Fn) (recorded : List Sexp) : List String :=
           go (i + 1) fuel (prev.push (if inf != .unknown then inf else rec_)) errs
     go 0 (n + 1) #[] []
 
+/-! ### statements: stores, calls, atomics and workgroupUniformLoad are type-correct (from the recorded types) -/
+
+/-- (pointee type handle, address space) of a recorded pointer type. -/
+def pointeeOfRecorded (types : Array Ty) : Sexp → Option (Nat × String)
+  | .list [.atom "h", n] => do
+    match types[(← n.nat?)]? with
+    | some (.pointer b sp) => some (b, sp)
+    | _ => none
+  | .list [.atom "v", inner] =>
+    match IR.parseTy inner with
+    | some (.pointer b sp) => some (b, sp)
+    | _ => none
+  | _ => none
+
+mutual
+  partial def stmtTypeErrs (m : Module) (f : Fn) (rec_ : Array Sexp) : Stmt → List String
+    | .block b => blockTypeErrs m f rec_ b
+    | .ifs _ a r => blockTypeErrs m f rec_ a ++ blockTypeErrs m f rec_ r
+    | .switch _ cs => cs.flatMap (fun c => blockTypeErrs m f rec_ c.2.2)
+    | .loop b c _ => blockTypeErrs m f rec_ b ++ blockTypeErrs m f rec_ c
+    | .store p v =>
+      match rec_[p]?.bind (pointeeOfRecorded m.types), rec_[v]? with
+      | some (b, _), some rv =>
+        let want := shOfTy m.types b
+        let got := shOfRecorded m.types rv
+        -- atomicStore is represented as a plain Store through the pointer to the atomic (as in upstream naga)
+        let want := match m.types[b]? with | some (.atomic k w) => Sh.scalar k w | _ => want
+        if want != .unknown && got != .unknown && want != got then
+          [s!"store {p} {v}: value type {showSh got} but the pointee is {showSh want}"] else []
+      | _, _ => []
+    | .call fn args _ =>
+      match m.functions[fn]? with
+      | none => []
+      | some callee =>
+        (if callee.args.length != args.length then [s!"call {fn}: {args.length} arguments for {callee.args.length} parameters"] else []) ++
+        (args.zip callee.args).flatMap (fun (a, t) =>
+          match m.types[t]? with
+          | some (.pointer _ _) => []
+          | _ =>
+            let want := shOfTy m.types t
+            let got := match rec_[a]? with | some r => shOfRecorded m.types r | none => Sh.unknown
+            if want != .unknown && got != .unknown && want != got then
+              [s!"call {fn}: argument {a} has type {showSh got} but the parameter is {showSh want}"] else [])
+    | .atomic p fn cmp v res =>
+      match rec_[p]?.bind (pointeeOfRecorded m.types) with
+      | none => []
+      | some (b, _) =>
+        match m.types[b]? with
+        | some (.atomic k w) =>
+          let want := Sh.scalar k w
+          let chk (what : String) (h : Nat) : List String :=
+            let got := match rec_[h]? with | some r => shOfRecorded m.types r | none => Sh.unknown
+            if got != .unknown && got != want then [s!"atomic {fn} on {p}: {what} {h} has type {showSh got} but the atomic is {showSh want}"] else []
+          chk "value" v ++ (match cmp with | some h => chk "compare value" h | none => []) ++
+            (match res, cmp with | some r, none => chk "result" r | _, _ => [])
+        | _ => [s!"atomic {fn} on {p}: the pointee (type {b}) is not an atomic"]
+    | .wgul p r =>
+      match rec_[p]?.bind (pointeeOfRecorded m.types) with
+      | none => []
+      | some (b, sp) =>
+        (if sp != "workgroup" then [s!"workgroupUniformLoad {p}: pointer into address space {sp}"] else []) ++
+        (let want := match m.types[b]? with | some (.atomic k w) => Sh.scalar k w | _ => shOfTy m.types b
+         let got := match rec_[r]? with | some x => shOfRecorded m.types x | none => Sh.unknown
+         if want != .unknown && got != .unknown && want != got then
+           [s!"workgroupUniformLoad {p}: result {r} has type {showSh got} but the pointee is {showSh want}"] else [])
+    | _ => []
+  partial def blockTypeErrs (m : Module) (f : Fn) (rec_ : Array Sexp) (ss : List Stmt) : List String :=
+    ss.flatMap (stmtTypeErrs m f rec_)
+end
+
+def checkFnStmtTypes (m : Module) (f : Fn) (recorded : List Sexp) : List String :=
+  if recorded.length != f.exprs.size then [] else
+  (blockTypeErrs m f recorded.toArray f.body).map (fun e => s!"fn {f.name}: {e}")
+
 /-- No abstract-numeric type or literal survives lowering. -/
 def abstractSurvivors (m : Module) : List String :=
   let tyErr := (List.range m.types.size).flatMap (fun i =>
@@ -189,7 +263,7 @@ def validateTyped (x : Sexp) : Option (List String) :=
     let fns := m.functions.toList ++ m.entries.toList.map (·.2.2)
     let tyErrs := (fns.zip fts).flatMap (fun p =>
       match p.2 with
-      | .list (_ :: rec_) => checkFnTypes m p.1 rec_
+      | .list (_ :: rec_) => checkFnTypes m p.1 rec_ ++ checkFnStmtTypes m p.1 rec_
       | _ => [])
     some (IRValid.validate m ++ abstractSurvivors m ++ duplicateTypes m names ++ returnsOnAllPaths m ++ tyErrs)
   | _ => none
